@@ -143,6 +143,8 @@ pub fn cmd_defrag_fuzz(args: &[String]) -> i32 {
     let mut pool: Vec<(u8, Vec<u8>)> = vec![
         (22, vec![20, 0, 0, 2, 170, 187]), (22, vec![0, 0, 0, 0, 14, 0, 0, 0]), (24, vec![1, 0, 2, 7, 8, 0, 0]),
         (23, vec![9, 9]), (21, vec![1, 0]), (20, vec![1]), (22, vec![99, 0, 0, 0]), (24, vec![2, 0, 0]),
+        // first fragments declaring far more than they carry (u24 / u16 maxima)
+        (22, vec![11, 255, 255, 255, 0]), (22, vec![1, 255, 255, 255, 3, 3]), (24, vec![1, 255, 255, 0]), (22, vec![20, 0, 255, 255]),
     ];
     if args.len() > 4 {
         if let Ok(f) = std::fs::File::open(&args[4]) {
